@@ -92,6 +92,9 @@ let try_alt (w : string list) : (xstate * contact) option =
        (match r with
         | POk _ when ni bs.d_bit < ni s.x_next + 32 ->
           hyp_broken := Some (Printf.sprintf "ev_prog: parse OK at bit %d, the block confirmed before it is at bit %d" (ni bs.d_bit) (ni s.x_next)); None
+        (* label hypothesis ev_term (SchedX/XLiveTerm.v): a parser call that returns MORE has consumed at least one bit *)
+        | PMore _ when ni bs.d_bit <= ni s.x_parser_bs.d_bit ->
+          hyp_broken := Some (Printf.sprintf "ev_term: parse MORE at bit %d, parser was at bit %d" (ni bs.d_bit) (ni s.x_parser_bs.d_bit)); None
         | _ -> ev (EvParse1 (att, r)) (Clear (i 1)))
      | _ -> None)
   | "R0" :: _ ->
